@@ -79,3 +79,181 @@ enc_array!(c01_enc_at_p3_k2, 3, 2, u64, 8, Signature::U64, 2, |m, v| m.u64(v));
 enc_array!(c01_enc_at_p4_k0, 4, 0, u64, 8, Signature::U64, 2, |m, v| m.u64(v));
 enc_array!(c01_enc_at_p4_k1, 4, 1, u64, 8, Signature::U64, 2, |m, v| m.u64(v));
 enc_array!(c01_enc_at_p4_k2, 4, 2, u64, 8, Signature::U64, 2, |m, v| m.u64(v));
+
+// ------------------------------------------------------------------ C03: decoding arrays from arbitrary bytes
+
+/// Allocation-free decode target: an array of at most 2 fixed-size elements (more elements => custom error,
+/// which cannot happen within the input bound).
+pub struct Arr2<T> {
+    pub n: usize,
+    pub v: [T; 2],
+}
+impl<'de, T: serde::Deserialize<'de> + Default + Copy> serde::Deserialize<'de> for Arr2<T> {
+    fn deserialize<D: serde::Deserializer<'de>>(d: D) -> Result<Self, D::Error> {
+        struct V<T>(core::marker::PhantomData<T>);
+        impl<'de, T: serde::Deserialize<'de> + Default + Copy> serde::de::Visitor<'de> for V<T> {
+            type Value = Arr2<T>;
+            fn expecting(&self, _: &mut std::fmt::Formatter<'_>) -> std::fmt::Result {
+                Ok(())
+            }
+            fn visit_seq<A: serde::de::SeqAccess<'de>>(self, mut seq: A) -> Result<Arr2<T>, A::Error> {
+                let mut out = Arr2 { n: 0, v: [T::default(); 2] };
+                while let Some(x) = seq.next_element::<T>()? {
+                    assert!(out.n < 2, "more elements than the input bound allows");
+                    out.v[out.n] = x;
+                    out.n += 1;
+                }
+                Ok(out)
+            }
+        }
+        d.deserialize_seq(V(core::marker::PhantomData))
+    }
+}
+
+/// Closed-form reference for `a<fixed>` at constant offset POS over N input bytes: Some((count, elems, consumed)).
+/// Valid iff: zero padding to 4, u32 byte length L inside the buffer, zero padding to the element alignment (present
+/// even when L == 0), L a multiple of the element size (the array ends on an element boundary), L bytes available.
+fn ref_array<const POS: usize, const N: usize, const ESZ: usize>(
+    buf: &[u8; N],
+    len: usize,
+    be: bool,
+) -> Option<(usize, [u64; 2], usize)> {
+    let p0 = (4 - POS % 4) % 4;
+    let len_at = p0;
+    let after_len = len_at + 4;
+    let p1 = (ESZ - (POS + after_len) % ESZ) % ESZ;
+    let first = after_len + p1;
+    if len < first {
+        return None;
+    }
+    let mut i = 0;
+    while i < p0 {
+        if buf[i] != 0 {
+            return None;
+        }
+        i += 1;
+    }
+    let w = [buf[len_at], buf[len_at + 1], buf[len_at + 2], buf[len_at + 3]];
+    let l = if be { u32::from_be_bytes(w) } else { u32::from_le_bytes(w) } as usize;
+    let mut i = 0;
+    while i < p1 {
+        if buf[after_len + i] != 0 {
+            return None;
+        }
+        i += 1;
+    }
+    if l > len - first || l % ESZ != 0 {
+        return None;
+    }
+    let count = l / ESZ;
+    let mut elems = [0u64; 2];
+    let mut c = 0;
+    while c < 2 && c < (N - first) / ESZ {
+        if c < count {
+            let mut v: u64 = 0;
+            let mut k = 0;
+            while k < ESZ {
+                let b = buf[first + c * ESZ + k] as u64;
+                let shift = if be { 8 * (ESZ - 1 - k) } else { 8 * k };
+                v |= b << shift;
+                k += 1;
+            }
+            elems[c] = v;
+        }
+        c += 1;
+    }
+    Some((count, elems, first + l))
+}
+
+macro_rules! dec_array {
+    ($h:ident, $pos:expr, $N:expr, $ty:ty, $esz:expr, $elem_sig:expr) => {
+        #[kani::proof]
+        #[kani::unwind(10)]
+        #[kani::stub(alloc::fmt::format, no_format)]
+        #[kani::stub(<std::os::fd::OwnedFd as core::ops::Drop>::drop, no_close)]
+        fn $h() {
+            let buf: [u8; $N] = kani::any();
+            let len: usize = kani::any();
+            kani::assume(len <= $N);
+            let be: bool = kani::any();
+            let data = Data::new(&buf[..len], ctx($pos, be));
+            let r = data.deserialize_for_signature::<_, Arr2<$ty>>(Signature::static_array(&$elem_sig));
+            let model = ref_array::<$pos, $N, $esz>(&buf, len, be);
+            match (&r, model) {
+                (Ok((a, used)), Some((count, elems, mused))) => {
+                    kani::cover!(count >= 1, "non-empty array accepted");
+                    kani::cover!(count == 0, "empty array accepted");
+                    assert!(*used == mused, "array: consumed byte count differs");
+                    assert!(a.n == count, "array: element count differs");
+                    assert!(count < 1 || a.v[0] as u64 == elems[0], "array: element 0 differs");
+                    assert!(count < 2 || a.v[1] as u64 == elems[1], "array: element 1 differs");
+                }
+                (Err(_), None) => {
+                    kani::cover!(len == $N, "full-length input rejected");
+                }
+                (Ok(_), None) => assert!(false, "array decoder accepted an invalid encoding"),
+                (Err(_), Some(_)) => assert!(false, "array decoder rejected a valid encoding"),
+            }
+            core::mem::forget(r);
+            core::mem::forget(data);
+        }
+    };
+}
+dec_array!(c03_dec_ay_p0, 0, 6, u8, 1, Signature::U8);
+dec_array!(c03_dec_ay_p3, 3, 7, u8, 1, Signature::U8);
+dec_array!(c03_dec_aq_p0, 0, 8, u16, 2, Signature::U16);
+dec_array!(c03_dec_au_p0, 0, 12, u32, 4, Signature::U32);
+dec_array!(c03_dec_au_p2, 2, 14, u32, 4, Signature::U32);
+dec_array!(c03_dec_at_p0, 0, 16, u64, 8, Signature::U64);
+dec_array!(c03_dec_at_p4, 4, 12, u64, 8, Signature::U64);
+
+// ------------------------------------------------------------------ C01: file descriptors (array of two distinct fds)
+/// Environment stub: duplicating a descriptor (fcntl F_DUPFD_CLOEXEC). Returns a fresh descriptor number.
+pub fn fake_dup<'a>(fd: &std::os::fd::BorrowedFd<'a>) -> std::io::Result<std::os::fd::OwnedFd>
+where
+    'a: 'a,
+{
+    use std::os::fd::{AsRawFd, FromRawFd};
+    Ok(unsafe { std::os::fd::OwnedFd::from_raw_fd(fd.as_raw_fd() + 100) })
+}
+
+macro_rules! enc_fds {
+    ($h:ident, $pos:expr) => {
+        #[kani::proof]
+        #[kani::unwind(9)]
+        #[kani::stub(alloc::fmt::format, no_format)]
+        #[kani::stub(<std::os::fd::OwnedFd as core::ops::Drop>::drop, no_close)]
+        #[kani::stub(std::os::fd::BorrowedFd::try_clone_to_owned, fake_dup)]
+        fn $h() {
+            use std::os::fd::BorrowedFd;
+            let same: bool = kani::any();
+            let a = unsafe { BorrowedFd::borrow_raw(5) };
+            let b = unsafe { BorrowedFd::borrow_raw(if same { 5 } else { 6 }) };
+            let vals = [zvariant::Fd::from(a), zvariant::Fd::from(b)];
+            let be: bool = kani::any();
+            let mut buf = [0u8; 32];
+            let mut cur = Cursor::new(&mut buf[..]);
+            let r = unsafe {
+                to_writer_for_signature(&mut cur, ctx($pos, be), Signature::static_array(&Signature::Fd), &vals[..])
+            };
+            let mut m = Out::new($pos, be);
+            let mark = m.array_begin(4);
+            m.u32(0);
+            m.u32(if same { 0 } else { 1 });
+            m.array_end(mark);
+            match &r {
+                Ok(w) => {
+                    kani::cover!(be && !same, "two distinct descriptors, big endian");
+                    assert!(w.size() == m.len, "fd array: encoded length differs");
+                    assert!(same32(&buf, &model32(&m)), "fd array: indices are not the u32 positions in the attached list (in message byte order)");
+                    assert!(w.fds().len() == if same { 1 } else { 2 }, "fd array: number of attached descriptors differs");
+                }
+                Err(_) => assert!(false, "encoding descriptors failed"),
+            }
+            core::mem::forget(r);
+            core::mem::forget(vals);
+        }
+    };
+}
+enc_fds!(c01_enc_ah_p0, 0);
+enc_fds!(c01_enc_ah_p2, 2);
